@@ -578,5 +578,9 @@ fn _close_upvalues<T>(vm: &mut Vm<T>, top: *const Value) -> ExecutionResult {
 
 pub fn close_upvalues<T>(vm: &mut Vm<T>) -> ExecutionResult {
     let top = vm.runtime_data.value_stack.top_location();
-    _close_upvalues(vm, top)
+    _close_upvalues(vm, top)?;
+    // the captured local leaves its scope: release its slot, like `Pop` does for the other locals,
+    // so that the next captured local of the same scope is on top when it is closed
+    vm.runtime_data.value_stack.pop();
+    Ok(())
 }
